@@ -206,19 +206,23 @@ Definition obs_of_xo (v : value) : option (oobs * (time64 * time64 * time64)) :=
   | _ => None
   end.
 
-(* every exchange of a call meets C05_ok; exchanges the implementation made beyond the script have no views: an offset there is a violation *)
-Fixpoint xchgs_ok (nts : bool) (xs : list pxchg) (obs : list value) : bool :=
+(* every exchange of a call meets C05_ok; exchanges the implementation made beyond the script have no views: an
+   offset there is a violation.  [prev] is the oracle's own history (Model: oq_prev, C05_basis), threaded through the
+   exchanges of a call and through the calls of the history; the result is the verdict and the history afterwards *)
+Fixpoint xchgs_ok (nts : bool) (prev : list time64) (xs : list pxchg) (obs : list value) : bool * list time64 :=
   match obs with
-  | [] => true
+  | [] => (true, prev)
   | v :: orest =>
       match obs_of_xo v with
-      | None => false
+      | None => (false, prev)
       | Some (o, (org, rx, tx)) =>
           match xs with
           | x :: xrest =>
-              C05_ok {| oq_nts := nts; oq_ireq := px_oireq x; oq_org := org; oq_rx := rx; oq_tx := tx;
-                        oq_ref := e_ref (px_env x) |} (px_views x) o && xchgs_ok nts xrest orest
-          | [] => match o with ObsError => xchgs_ok nts [] orest | _ => false end
+              let oq := {| oq_nts := nts; oq_ireq := px_oireq x; oq_rx := rx; oq_tx := tx; oq_prev := prev;
+                           oq_ref := e_ref (px_env x) |} in
+              let '(b, p) := xchgs_ok nts (C05_basis oq (px_views x) o) xrest orest in
+              (C05_ok oq (px_views x) o && b, p)
+          | [] => match o with ObsError => xchgs_ok nts prev [] orest | _ => (false, prev) end
           end
       end
   end.
@@ -229,33 +233,34 @@ Definition accepted_off (v : value) : option Z :=
   | VL [VZ 0; _; VL [_; _; _; _; VZ off]] => Some off
   | _ => None
   end.
-Definition call_ok (nts : bool) (xs : list pxchg) (before : list bytes) (v : value) : bool :=
+Definition call_ok (nts : bool) (prev : list time64) (xs : list pxchg) (before : list bytes) (v : value) : bool * list time64 :=
   match v with
   | VL [VZ code; VZ off; VL obs; VL poolv] =>
-      match getBs poolv with
-      | Some after => C05_pool_ok before (flat_map px_ke xs) (flat_map px_authentic xs) after
-      | None => false
-      end &&
-      xchgs_ok nts xs obs &&
-      (if code =? 0 then
-         existsb (fun x => match accepted_off x with Some o => o =? off | None => false end) obs
-       else true)
-  | _ => false
+      let '(b, p) := xchgs_ok nts prev xs obs in
+      (match getBs poolv with
+       | Some after => C05_pool_ok before (flat_map px_ke xs) (flat_map px_authentic xs) after
+       | None => false
+       end &&
+       b &&
+       (if code =? 0 then
+          existsb (fun x => match accepted_off x with Some o => o =? off | None => false end) obs
+        else true), p)
+  | _ => (false, prev)
   end.
 Definition pool_of (v : value) : list bytes :=
   match v with
   | VL [_; _; _; VL poolv] => match getBs poolv with Some p => p | None => [] end
   | _ => []
   end.
-Fixpoint calls_ok (nts : bool) (before : list bytes) (ops : list pop) (outs : list value) : bool :=
+Fixpoint calls_ok (nts : bool) (prev : list time64) (before : list bytes) (ops : list pop) (outs : list value) : bool :=
   match ops with
   | [] => match outs with [] => true | _ => false end
   | PCall xs :: r =>
       match outs with
-      | v :: orest => call_ok nts xs before v && calls_ok nts (pool_of v) r orest
+      | v :: orest => let '(b, p) := call_ok nts prev xs before v in b && calls_ok nts p (pool_of v) r orest
       | [] => false
       end
-  | _ :: r => calls_ok nts before r outs
+  | _ :: r => calls_ok nts prev before r outs
   end.
 
 Definition glue_C05 (k : string) (a o : list value) : option verdict :=
@@ -266,7 +271,7 @@ Definition glue_C05 (k : string) (a o : list value) : option verdict :=
         match parse_cfg cfgv, table_of tabv, parse_ops opsv with
         | Some c, Some t, Some ops =>
             let expected := calls_values (open_tab t) c [] ops (history (open_tab t) c cstate0 (hops_of ops)) in
-            Some (functional expected o (calls_ok (c_nts c) [] ops o))
+            Some (functional expected o (calls_ok (c_nts c) [] [] ops o))
         | _, _, _ => Some (relational false true)
         end
     | _ => Some (relational false true)
